@@ -5,7 +5,7 @@
    in-memory index) dropped, then ContinuityStore::new;  `run_ops fixed … base more` = ANY further operations.
    `env_runb` = the environment's part (fresh UUIDs: a thread id chosen for creation is not in the log, a
    session whose counter is not in memory is new).  `fixed` = /repo with the two repairs (bd2ee56, 0b0d2b0). *)
-From RipV Require Import Base.Prelude Model.Crash Proofs.CrashProofs Proofs.CrashCacheProofs Proofs.CrashIndexProofs Gen.CrashEffects Proofs.CrashGenProofs.
+From RipV Require Import Base.Prelude Model.Crash Proofs.CrashProofs Proofs.CrashCacheProofs Proofs.CrashIndexProofs Proofs.CrashArtifactProofs Gen.CrashEffects Proofs.CrashGenProofs.
 
 (* whole store replays, every stream 0,1,2,.., whole lines only *)
 Theorem c05_recover_valid : forall (hist : list op) (k : nat) (base : N) (more : list op),
@@ -218,6 +218,26 @@ Theorem c05_unlink_then_rename_refuted :
   /\ idx_tmp (crash fixed ul_k_fixed ul_hist) = Some {| ix_default := Some 0; ix_known := [0; 1] |}.
 Proof. exact ul_witness. Qed.
 Print Assumptions c05_unlink_then_rename_refuted.
+
+(* ---- artifacts (compaction summaries, handoff bundles): the blob is complete (temp + rename) BEFORE the frame that
+   names it is handed to the log writer.  For EVERY code version, EVERY history, EVERY crash point k, restart and ANY
+   further operations: every artifact named by a frame of the log is in the artifact store (no dangling reference,
+   which an append-only log could never repair) *)
+Theorem c05_artifact_before_frame : forall (v : ver) (hist : list op) (k : nat) (base : N) (more : list op) (f : frame) (a : N),
+  In f (frames_of (truth (run_ops v (crash v k hist) base more))) -> f_art f = Some a ->
+  In a (arts (run_ops v (crash v k hist) base more)).
+Proof. exact artifact_before_frame. Qed.
+Print Assumptions c05_artifact_before_frame.
+
+(* non-vacuous: a crash after the checkpoint's frame is in the log (artifact 7 complete), and a crash between the blob's
+   temp write and its rename (no frame names it yet: the .tmp file is an orphan nothing references) *)
+Example c05_artifact_before_frame_nonvacuous :
+  map f_art (frames_of (truth (crash fixed 1000 art_hist))) = [None; None; Some 7]
+  /\ arts (crash fixed 1000 art_hist) = [7]
+  /\ map f_art (frames_of (truth (crash fixed 57 art_hist))) = [None; None]
+  /\ arts (crash fixed 57 art_hist) = [] /\ art_tmps (crash fixed 57 art_hist) = [7].
+Proof. exact art_example. Qed.
+Print Assumptions c05_artifact_before_frame_nonvacuous.
 
 (* T1 (Gen/CrashEffects.v is regenerated from /repo on every run): the order of file-system effects, crash points and
    counter updates read from EventLog::append, append_best_effort, rebuild_best_effort, the 11 locked appends,
